@@ -50,35 +50,37 @@ Theorem C36_close_call_closes_partial :
 Proof. exact close_call_closes_partial. Qed.
 Print Assumptions C36_close_call_closes_partial.
 
-Theorem C36_after_close_no_block_forever_refuted : ~ no_block_forever_full.
-Proof. exact no_block_forever_refuted_proof. Qed.
-Print Assumptions C36_after_close_no_block_forever_refuted.
-
-Theorem C36_blocked_low_sender_stuck :
-  forall s p pd tr s2, stuck s p pd -> run s tr = Some s2 -> stuck s2 p pd.
-Proof. exact stuck_forever. Qed.
-Print Assumptions C36_blocked_low_sender_stuck.
-
-Theorem C36_after_close_no_block_forever_partial :
+Theorem C36_after_close_no_block_forever :
   forall cp tr s p pd, run (init cp) tr = Some s -> s_qclosed s = true ->
-    pend_get p (s_pend s) = Some pd -> can_return pd = true ->
-    exists r s2, is_err r = true /\ step s (EUnblock p r) = Some s2.
-Proof. exact no_block_forever_partial_proof. Qed.
-Print Assumptions C36_after_close_no_block_forever_partial.
+    pend_get p (s_pend s) = Some pd ->
+    exists tr2 s2, run s tr2 = Some s2 /\ pend_get p (s_pend s2) = None.
+Proof. exact no_block_forever_proof. Qed.
+Print Assumptions C36_after_close_no_block_forever.
 
-Example C36_blocked_witness :
-  exists s, run (init witness_caps) witness_trace = Some s
+Theorem C36_after_close_parked_send_returns_error :
+  forall cp tr s p pd, run (init cp) tr = Some s -> s_qclosed s = true ->
+    pend_get p (s_pend s) = Some pd ->
+    exists r s2, is_err r = true /\ step s (EUnblock p r) = Some s2 /\ pend_get p (s_pend s2) = None.
+Proof. exact parked_send_returns_error_proof. Qed.
+Print Assumptions C36_after_close_parked_send_returns_error.
+
+Example C36_parked_low_sender_woken :
+  exists s s2, run (init witness_caps) witness_trace = Some s
             /\ s_qclosed s = true /\ c_closed (gc s 0) = true /\ close_done s 0 = true
-            /\ stuck s 7 (mkP 1 3 false false 0).
+            /\ pend_get 7 (s_pend s) = Some (mkP 1 3 false false 0)
+            /\ fspace (lcap (s_caps s)) (t_low (gt s 0)) = false
+            /\ step s (EUnblock 7 SOk) = None
+            /\ step s (EUnblock 7 SErrChan) = Some s2 /\ s_pend s2 = [].
 Proof. exact witness_runs. Qed.
-Print Assumptions C36_blocked_witness.
+Print Assumptions C36_parked_low_sender_woken.
 
-Example C36_partial_guard_satisfiable :
-  exists s pd, run (init (mkCaps 1 1 5))
+Example C36_parked_high_sender_woken :
+  exists s pd s2, run (init (mkCaps 1 1 5))
                  [ENew 0 0 1; ESend 1 0 true MNow SOk; ENew 1 0 2; EBlock 9 1 1 true MForever; ECloseQueue] = Some s
-               /\ s_qclosed s = true /\ pend_get 9 (s_pend s) = Some pd /\ can_return pd = true.
-Proof. eexists _, _. repeat split; vm_compute; reflexivity. Qed.
-Print Assumptions C36_partial_guard_satisfiable.
+               /\ s_qclosed s = true /\ pend_get 9 (s_pend s) = Some pd /\ p_high pd = true
+               /\ step s (EUnblock 9 SErrChan) = Some s2 /\ s_pend s2 = [].
+Proof. eexists _, _, _. repeat split; vm_compute; reflexivity. Qed.
+Print Assumptions C36_parked_high_sender_woken.
 
 Example C36_bulk_fill_agrees :
   forallb (fun n => same_view (C36.Check.bulk_fill n (init (mkCaps 2 30 5)) 1 0 3 7)
